@@ -259,23 +259,27 @@ def preimage_real_transforms(verdict, tier, seed):
                                           f"the log-Jacobian reported by the preconditioning map's inverse() is not log|det dx/dz| of that map "
                                           f"(finite differences; max diff {np.max(np.abs(logdet[okp] - j_ref[okp])):.3g}) for transform cfg {cf}", scen)
                     n_eval += int(okp.sum())
-                for cls, C in (("MiniPCNSMC", MiniPCNSMC), ("MiniPCN", MiniPCN)):
+                classes = [("MiniPCNSMC", MiniPCNSMC), ("MiniPCN", MiniPCN)]
+                if ns == "jax" and not cf.get("flow"):
+                    from aspire.samplers.smc.blackjax import BlackJAXSMC      # its own re-implementation of log_prob
+                    classes.append(("BlackJAXSMC", BlackJAXSMC))
+                for cls, C in classes:
                     for k in seen:
                         seen[k].clear()
                     smp = C(log_likelihood=ll, log_prior=lp, dims=2, prior_flow=F(), xp=xp, dtype="float64",
                             parameters=params, preconditioning_transform=tr)
                     try:
-                        out = smp.log_prob(xp.asarray(z), beta) if cls == "MiniPCNSMC" else smp.log_prob(xp.asarray(z))
+                        out = smp.log_prob(xp.asarray(z), beta) if cls != "MiniPCN" else smp.log_prob(xp.asarray(z))
                     except Exception as ex:
                         verdict.violation(f"NeverRaises|log_prob|{cls}|{ns}|{type(ex).__name__}", f"{cls}.log_prob with transform cfg {cf} raised {type(ex).__name__}: {str(ex)[:120]}", scen)
                         continue
                     n_eval += len(z)
                     o = np.asarray(smcdrv.to_np(out), dtype=np.float64).reshape(-1)
-                    b = beta if cls == "MiniPCNSMC" else 1.0
-                    exp = ((1 - b) * q_np(x_ref) if cls == "MiniPCNSMC" else 0.0) + b * (l_np(x_ref) + p_np(x_ref)) + j_ref
+                    b = beta if cls != "MiniPCN" else 1.0
+                    exp = ((1 - b) * q_np(x_ref) if cls != "MiniPCN" else 0.0) + b * (l_np(x_ref) + p_np(x_ref)) + j_ref
                     if not np.allclose(o, exp, rtol=1e-10, atol=1e-10):
                         verdict.violation(f"JacobianIncluded|{cls}|{ns}", f"{cls}.log_prob(z) != tempered target at x=inverse(z) + log|det dx/dz| for transform cfg {cf} (max diff {np.max(np.abs(o-exp)):.3g})", scen)
-                    for who in ("like", "prior") + (("q",) if cls == "MiniPCNSMC" else ()):
+                    for who in ("like", "prior") + (("q",) if cls != "MiniPCN" else ()):
                         for xs in seen[who]:
                             if xs.shape != x_ref.shape or not np.allclose(xs, x_ref, rtol=0, atol=1e-12):
                                 verdict.violation(f"PreimageFlow|{who}|{cls}|{ns}", f"{who} evaluated at points that are not inverse(z) for transform cfg {cf}", scen)
